@@ -767,6 +767,48 @@ def undo_local_renames(trees: Dict[str, ast.Module]) -> Dict[str, str]:
     if not ref:
         return {}
     report: Dict[str, str] = {}
+    with open(KNOWN_FILE) as fh:
+        ref_params = json.load(fh).get("params", {})
+    # parameters first: same number, new names unknown to the reference function, old names unused in it
+    for mod, tree in trees.items():
+        for qn, fn, chain in qualnames(tree, mod):
+            wantp = ref_params.get(qn)
+            if wantp is None:
+                continue
+            a_ = fn.args
+            args_ = a_.posonlyargs + a_.args + a_.kwonlyargs
+            havep = [x.arg for x in args_]
+            if havep == wantp or len(havep) != len(wantp):
+                continue
+            pairs = [(h, w) for h, w in zip(havep, wantp) if h != w]
+            used = {x.id for x in ast.walk(fn) if isinstance(x, ast.Name)} | set(havep)
+            if not all(h not in wantp and w not in used for h, w in pairs):
+                continue
+            inner_clash = False
+            for y in ast.walk(fn):
+                if isinstance(y, (ast.FunctionDef, ast.AsyncFunctionDef, ast.Lambda)) and y is not fn:
+                    ia = y.args
+                    if {z.arg for z in ia.posonlyargs + ia.args + ia.kwonlyargs} & {h for h, _ in pairs}:
+                        inner_clash = True
+            if inner_clash:
+                continue
+            m = dict(pairs)
+            for x in args_:
+                if x.arg in m:
+                    x.arg = m[x.arg]
+            for y in ast.walk(fn):
+                if isinstance(y, ast.Name) and y.id in m:
+                    y.id = m[y.id]
+            # call sites that pass the renamed parameter by keyword
+            for t2 in trees.values():
+                for c_ in ast.walk(t2):
+                    if isinstance(c_, ast.Call):
+                        callee = c_.func.attr if isinstance(c_.func, ast.Attribute) else (c_.func.id if isinstance(c_.func, ast.Name) else None)
+                        if callee == fn.name:
+                            for k in c_.keywords:
+                                if k.arg in m:
+                                    k.arg = m[k.arg]
+            report[qn + "()"] = "parameters renamed (" + ", ".join(f"{h} -> {w}" for h, w in pairs) + "): analysed under the reference names"
     for mod, tree in trees.items():
         for qn, fn, chain in qualnames(tree, mod):
             want = ref.get(qn)
